@@ -748,7 +748,7 @@ def gen_props(rng, p, n):
         if k == 'visibility':
             v = rng.choice([1, 2, 3, 'expert', 'advanced', 'user'])
         elif k == 'export':
-            v = rng.choice([False, True, '_alias_' + p['name'], 'alias2' + p['name'], 0, 1])
+            v = rng.choice([False, True, '_alias_' + p['name'], 'alias2' + p['name'], 0, 1, '_shared', '_shared'])
         elif k == 'readonly':
             v = rng.choice([True, False, 0, 1])
         elif k == 'group':
